@@ -238,6 +238,16 @@ func genProg(w *bufio.Writer, r *rand.Rand, n int, o progOpts, big bool) {
 		if r.Intn(3) == 0 {
 			names = append(names, 1, 2, 3, 4)
 		}
+		// labels written on the END line: they stand for the address just past the code
+		var endLabels []int64
+		if r.Intn(4) == 0 {
+			endLabels = append(endLabels, 130)
+			if r.Intn(3) == 0 {
+				endLabels = append(endLabels, 131)
+			}
+			names = append(names, endLabels...)
+			names = append(names, endLabels...)
+		}
 		var items [][]int64
 		var equIDs []int64
 		nequ := 0
@@ -251,6 +261,15 @@ func genProg(w *bufio.Writer, r *rand.Rand, n int, o progOpts, big bool) {
 			id := int64(50 + j)
 			equItems = append(equItems, g.gen(o.exprDepth-1).enc([]int64{1, id}))
 			equIDs = append(equIDs, id)
+		}
+		// a second name that differs from an existing one in letter case only
+		if o.equs && len(names)+len(equIDs) > 0 && r.Intn(3) == 0 {
+			all := append(append([]int64{}, labelIDs...), equIDs...)
+			if len(all) > 0 {
+				id := all[r.Intn(len(all))] + 200
+				equItems = append(equItems, (&gexpr{kind: 0, n: int64(60 + r.Intn(30))}).enc([]int64{1, id}))
+				equIDs = append(equIDs, id, id)
+			}
 		}
 		allNames := append(append([]int64{}, names...), equIDs...)
 		g := &egen{r: r, names: allNames, maxLit: 200, signRuns: o.signRuns, divs: o.divs}
@@ -331,6 +350,8 @@ func genProg(w *bufio.Writer, r *rand.Rand, n int, o progOpts, big bool) {
 				c = append(c, -1)
 			}
 		}
+		c = append(c, int64(len(endLabels)))
+		c = append(c, endLabels...)
 		wr(w, c)
 	}
 }
@@ -349,6 +370,7 @@ func addFors(r *rand.Rand, items [][]int64, o progOpts, cfg gcfg) [][]int64 {
 		return id
 	}
 	var blockLabels []int64
+	early := [][]int64{}
 	var build func(depth int, mult int, outer []int64, once bool) []int64
 	build = func(depth int, mult int, outer []int64, once bool) []int64 {
 		cnt := r.Intn(7)
@@ -451,8 +473,17 @@ func addFors(r *rand.Rand, items [][]int64, o progOpts, cfg gcfg) [][]int64 {
 			nestFirst = false
 		}
 		labelAt := r.Intn(nb)
+		var twin int64 = -1
+		if r.Intn(3) == 0 {
+			// a name spelt like the counter but in upper case: names are case-sensitive, it is not the counter
+			twin = counter + 200
+			early = append(early, (&gexpr{kind: 0, n: int64(7 + r.Intn(9))}).enc([]int64{1, twin}))
+		}
 		for i := 0; i < nb; i++ {
 			g := &egen{r: r, names: append([]int64{counter}, visible...), maxLit: 30}
+			if twin >= 0 {
+				g.names = append(g.names, twin, twin)
+			}
 			if bodyEqu >= 0 {
 				g.names = append(g.names, bodyEqu)
 			}
@@ -475,7 +506,6 @@ func addFors(r *rand.Rand, items [][]int64, o progOpts, cfg gcfg) [][]int64 {
 		return out
 	}
 	nblocks := 1 + r.Intn(3)
-	early := [][]int64{}
 	for b := 0; b < nblocks && budget > 2; b++ {
 		pos := r.Intn(len(items) + 1)
 		before := len(countEqus)
